@@ -110,6 +110,25 @@ CLAIMED["C36"] = ("jaxpr->SMT (z3) of one forward step of a dispersive scene wit
                   "bounded SMT verification of clause 1 only: the stored polarisation follows c1 P + c2 P_prev + c3 E on every cell; cells with all-zero coefficients (and zero history) evolve exactly like the same scene without dispersion; all-zero coefficients reproduce the non-dispersive step.  Clause 2 (energy bounded for 1e4 steps) is not encodable and NOT claimed",
                   "reals for floats; Lorentz/Drude poles, isotropic and per-axis; CCPR (c4), oriented poles and the full-tensor branch out of scope", "4/C36")
 
+CLAIMED["C23"] = ("jaxpr->SMT (z3) of the flood-fill clean-up with every voxel a z3 Bool, against a reachability oracle",
+                  "bounded SMT verification: a kept cell is connected to the bottom layer (lemma chain over the code's own dilation stages, each lemma a solver verdict), every connected cell is kept (reachability unrolled #cells-1 times), connect_holes_and_structures leaves no floating material and no enclosed background, module outputs are material indices -- for all binary designs of the listed shapes.  Two recorded known findings (too few sweeps; ValueError on thin designs)",
+                  "designs <= 4x4x3 quick / 7x7x3 thorough; two materials; connect on 4x4x4 and larger not decided", "4/C23")
+CLAIMED["C25"] = ("bounded model checking: jaxpr->SMT (z3) of BrushConstraint2D._generator with the symbolic while loop unrolled and an unwinding assertion",
+                  "bounded SMT verification, the weakest claim of the set: for all real designs on 3x3 (quick) and 3x4 / 4x3 (thorough) grids the loop terminates within the proved unwinding bound, the output is binary, and every solid and every void pixel lies in a brush footprint whose in-domain part is entirely solid / void",
+                  "4x4 could not be decided within budget (unwinding bound 11 unknown after 600 s) and is not claimed; brushes: plus, circular_brush(2), circular_brush(3); designs with a side shorter than the brush raise in convolve2d (outside the documented domain)", "4/C25")
+CLAIMED["C34"] = ("concolic execution (pysym+z3) of reduce_resolved_slices / validate_symmetric_axis_cells / make_symmetry_walls with symbolic volume extents and object boxes",
+                  "bounded SMT verification: odd or too small counts raise; kept half is [n/2, n) shifted to 0; every object is clipped to the intersection and dropped exactly when it is empty; unclipped extents are shifted by the plane index; exactly one PEC wall per electric plane -- for all integer extents <= 12 and all 27 symmetry tuples",
+                  "counts <= 12; a concrete cross-check through place_objects is included but not solver-decided", "4/C34")
+CLAIMED["C37"] = ("concolic execution (pysym+z3) of RectilinearGrid / UniformGrid helpers with symbolic edges, coordinates, sizes, anchors",
+                  "bounded SMT verification: snapping returns the nearest/lower/upper edge; bounds_for_center / bounds_for_anchor return a size-preserving in-grid interval minimising the distance; extents, face areas and cell volumes agree with the edges; the CFL bound holds with the configured factor (within the documented 1e-4 uniformity tolerance for grids detected uniform); uniform detection and symmetric reduction as documented",
+                  "reals for floats; <= 5 cells on the symbolic axis; QuasiUniformGrid out of scope; np.round(spacing,14) treated as identity", "4/C37")
+CLAIMED["C39"] = ("concolic execution (pysym+z3) of materials.py normalisation, classification and ordering with symbolic tensor entries",
+                  "bounded SMT verification: scalar / 3-tuple / 9-tuple / nested inputs normalise to the same 9-tuple; isotropy / diagonality / magnetic / conductive predicates agree with the tensor (exact => True, True => within the isclose band); all per-property lists use one order; a material built from a complex permittivity reproduces it at its reference frequency",
+                  "reals for floats; <= 4 materials; dispersive coefficients out of scope", "4/C39")
+CLAIMED["C40"] = ("concolic execution (pysym+z3) of TreeClass.aset with a symbolic path selector over nested TreeClass/list/dict templates",
+                  "bounded SMT verification: for every addressable path (symbolic selector, 36-61 nodes per template) and all leaf values the result has the same type, equals an independent functional update, and the original is unchanged (identity of containers and leaves); bad paths raise and leave the original untouched",
+                  "four templates; tuples/arrays as indexed containers out of scope; most leaf equalities are structural (decided before the solver), 128 selector-level obligations are non-trivial", "4/C40")
+
 NOT_APPLICABLE = {
     "C12": "numerical accuracy bound (1e-6 residual energy after >=1e3 steps on >=40^3 cells in floating point); no algebraic identity, far beyond any bounded real-arithmetic encoding",
     "C13": "1e-3 power-ratio bound after hundreds of steps (TFSF leakage is small but non-zero by design); not an identity, out of reach for bounded real arithmetic",
